@@ -2,7 +2,7 @@
    Statements about Model.Recovery.open_image (byte-level model of open + recovery). *)
 From Coq Require Import List NArith Bool.
 From Feox Require Import Gen.Constants Model.Bytes Model.Codec Model.MetaJournal Model.FreeSpace Model.Recovery
-                         Proofs.RecoveryProofs.
+                         Proofs.RecoveryProofs Proofs.OpenContainedProofs.
 Import ListNotations.
 Local Open Scope N_scope.
 
@@ -64,6 +64,24 @@ Theorem parse_never_out_of_range : forall version data, parse_head version data 
 Proof. exact parse_head_total. Qed.
 Check parse_never_out_of_range : forall version data, parse_head version data <> None.
 Print Assumptions parse_never_out_of_range.
+
+(* Whatever the file holds and however the open ends (every image, every configuration, every
+   outcome): the length of the file stays, and the primary metadata block, the backup metadata block
+   and every other block in front of the data area outside the two journal slots keep every byte.
+   Journal replay, scan and both retirements of recovery write only into the journal slots and into
+   the data area: a damaged file can make the open fail, it cannot make it overwrite the metadata. *)
+Theorem open_never_touches_the_metadata_or_reserved_blocks : forall c img,
+  length (snd (open_image c img)) = length img /\
+  forall k, (k <= N.to_nat FEOX_METADATA_BLOCK \/
+             (N.to_nat FEOX_METADATA_BACKUP_BLOCK <= k /\ k < N.to_nat FEOX_DATA_START_BLOCK))%nat ->
+            nth k (snd (open_image c img)) [] = nth k img [].
+Proof. exact open_never_touches_the_reserved_blocks. Qed.
+Check open_never_touches_the_metadata_or_reserved_blocks : forall c img,
+  length (snd (open_image c img)) = length img /\
+  forall k, (k <= N.to_nat FEOX_METADATA_BLOCK \/
+             (N.to_nat FEOX_METADATA_BACKUP_BLOCK <= k /\ k < N.to_nat FEOX_DATA_START_BLOCK))%nat ->
+            nth k (snd (open_image c img)) [] = nth k img [].
+Print Assumptions open_never_touches_the_metadata_or_reserved_blocks.
 
 (* Non-vacuity: a 17-block all-0xFF image is rejected (not a FeOx device), an image with a forged
    oversized key length in a block that looks like a v1 record head is skipped without panic. *)
